@@ -35,7 +35,7 @@ theorem div_mod_values (L R : IntTy) (eL eR : Int) (ρ : Nat) (l r : Int) (g : D
   ⟨bin_div g eL eR ρ, bin_mod g eL eR ρ⟩
 
 /-- the same with the guard spelled out -/
-theorem div_mod_values' (L R : IntTy) (eL eR : Int) (ρ : Nat) (l r : Int)
+theorem div_mod_values_explicit (L R : IntTy) (eL eR : Int) (ρ : Nat) (l r : Int)
     (hwl : (usualArith L R).wrap l = l) (hwr : (usualArith L R).wrap r = r) (hr0 : r ≠ 0)
     (hov : ¬ ((usualArith L R).signed = true ∧ l = (usualArith L R).lowest ∧ r = -1)) :
     Layered.bin .div (sc L eL ρ l) (sc R eR ρ r) = .ok (sc (usualArith L R) (eL - eR) ρ (l.tdiv r))
